@@ -99,11 +99,19 @@ fn bprime_os_information_streams_mirror_a_stopped_child() {
     let _odd_file = std::fs::File::create(&odd).expect("create file with a non-UTF-8 name");
     let mut pipe_fds = [0i32; 2];
     assert_eq!(unsafe { libc::pipe(pipe_fds.as_mut_ptr()) }, 0);
+    // a memory map of more than two pages of text (procfs hands out seq_file records at most one page per read(),
+    // whatever the size of the user buffer): 160 single pages with alternating protection, so that no two merge
+    let area = unsafe { libc::mmap(std::ptr::null_mut(), 160 * 4096, libc::PROT_READ, libc::MAP_PRIVATE | libc::MAP_ANONYMOUS, -1, 0) };
+    assert!(area != libc::MAP_FAILED);
+    for k in (0..160).step_by(2) {
+        unsafe { libc::mprotect((area as usize + k * 4096) as *mut _, 4096, libc::PROT_READ | libc::PROT_WRITE); }
+    }
     let child = stopped_child();
     let _ = std::fs::remove_file(&odd);
     let result = std::panic::catch_unwind(|| {
         let mut n = 0;
         let mut config = MinidumpWriter::new(child, child);
+        assert!(std::fs::read(format!("/proc/{child}/maps")).unwrap().len() > 2 * 4096, "setup: the child's memory map is not longer than two pages");
         // raw file copies
         for f in ["cmdline", "environ", "auxv", "maps", "limits", "status"] {
             let path = format!("/proc/{child}/{f}");
